@@ -161,8 +161,9 @@ def classify(hist, idx, verdict):
     integer_point_exists = klass(ref) in ("unbounded", "optimum") or klass(window) in ("unbounded", "optimum")
     says_unsat = (kind == "solve" and lib == "unfeasible") or (kind == "sat" and lib == "0") or (kind == "fpoint" and lib == "none")
     m = re.search(r"incremental≠fresh incremental (\S+).* vs fresh (\S+)", verdict)
-    if m and {m.group(1), m.group(2)} == {"unfeasible", "unbounded"}:
-        says_unsat = True      # one of the two objects says unfeasible, the other exhibits a verified feasible point
+    if m and ({m.group(1), m.group(2)} == {"unfeasible", "unbounded"} or
+              (kind in ("fpoint", "sat") and {m.group(1), m.group(2)} in ({"none", "point"}, {"0", "1"}))):
+        says_unsat = True      # one of the two objects denies satisfiability, the other exhibits a verified feasible point
     solve_before = kind in SOLVE_LIKE or any(o.split(":")[1] in SOLVE_LIKE for o in ops if o.startswith("obs:"))
     site = "%s:%s" % (kind, obligation)
     # solve_mip(): relaxation unbounded, vertex fractional on an integer variable -> both children are
@@ -250,7 +251,7 @@ def run(ctx):
     stats_corpus = dict(stats)
 
     # ---- 2. seeded histories, in parallel ---------------------------------------------------------
-    n_hist = 1400 if quick else 30000
+    n_hist = 1100 if quick else 30000
     nproc = 12
     per = (n_hist + nproc - 1) // nproc
     maxdim = 4
